@@ -127,6 +127,13 @@ def tsan_keys(text):
             for h, fr in sides:
                 inner.append("%s [%s]" % (h.strip()[:60], " < ".join(fn for fn, _ in fr[:6])))
             details.append(" ;; ".join(inner)[:900])
+    # fatal signal caught by the runtime
+    for m in re.finditer(r"ERROR: ThreadSanitizer: (SEGV|BUS|FPE|ILL|ABRT)[^\n]*\n(?:==\d+==[^\n]*\n)*((?:\s+#\d+ [^\n]*\n)+)", text):
+        frames = [(fm.group(2), fm.group(3)) for fm in (_FRAME.match(l) for l in m.group(2).splitlines()) if fm]
+        key = "tsan:%s:%s" % (m.group(1), _side_label(frames))
+        if key not in keys:
+            keys.append(key)
+            details.append(("fatal signal in [%s]" % " < ".join(fn for fn, _ in frames[:7]))[:900])
     # the runtime itself giving up (e.g. pthread_join() on a thread that was joined already)
     for m in re.finditer(r"ThreadSanitizer: CHECK failed: ([^\n]*)\n((?:\s+#\d+ [^\n]*\n)+)", text):
         frames = [(fm.group(2), fm.group(3)) for fm in (_FRAME.match(l) for l in m.group(2).splitlines()) if fm]
@@ -166,6 +173,9 @@ def _one(spec, idx, timeout):
         extra.append(("abort:rc%s:%s" % (o["rc"], spec["profile"]), "worker terminated without a report"))
     elif ended and o["rc"] not in (0, 66) and not extra:
         extra.append(("abort:rc%s:%s" % (o["rc"], spec["profile"]), "unexpected exit code"))
+    if last is not None and not ended and not o["timed_out"]:
+        # the process died mid-case (a sanitizer abort, a failed assertion): the case's other monitors never ran
+        r.counters["worker.died_mid_case"] = r.counters.get("worker.died_mid_case", 0) + 1
     for k, d in extra:
         r.violations.append(dict(idx=idx, key=k, detail=d, log=err[-6000:], spec=spec))
     return r
